@@ -388,6 +388,9 @@ def check(pid, tier, seed, replay=None):
         "generated_cases_from_spec": len(gen_lines),
         "feature_sets": [s["features"] for s in summaries],
         "harness_notes": {k: v for s in summaries for k, v in s.get("notes", {}).items()},
+        # exact comparison of the code with the implementation-shaped transcription on this run's domain:
+        # True = the (M) result is evidence about the code, False = the model drifted, None = not compared
+        "design_model_bound": (len(drifts) == 0) if P.get("drift_checked") else None,
         "spec_drift_reports": len(drifts),
         "spec_drift_samples": drifts[:5],
         "known_findings_reported": sorted(known_hits.keys()),
